@@ -86,6 +86,9 @@ type VC struct {
 	topPanics []*State
 	analyzed  map[ast.Node]bool
 	noKF      bool
+	goCount   int
+	workerMode bool
+	lastRecv  *Term
 	gaddrSeen map[string]bool
 	usedSites map[string]bool
 	heapGoTypes map[string]types.Type
